@@ -1094,3 +1094,169 @@ theorem fuelEnough_of_rank (mrg : β → β → β) (n : Nat) (m0 : AL (XSvc β)
   exact h2
 
 end CV.Det
+
+/-! ### fuel sufficiency of the `extends` model (pigeonhole on the chain of references) -/
+namespace CV.Det
+open CV CV.Val
+variable {β : Type}
+
+def eraseKey {α : Type} (k : String) : AL α → AL α
+  | [] => []
+  | (k', v) :: r => if k = k' then eraseKey k r else (k', v) :: eraseKey k r
+
+theorem find_eraseKey_self {α : Type} (k : String) (m : AL α) : find k (eraseKey k m) = none := by
+  induction m with
+  | nil => rfl
+  | cons hd tl ih =>
+    obtain ⟨k', v⟩ := hd
+    simp only [eraseKey]; split
+    · exact ih
+    · next h => simp only [find, h, if_false]; exact ih
+
+theorem find_eraseKey_ne {α : Type} {k x : String} (h : x ≠ k) (m : AL α) : find x (eraseKey k m) = find x m := by
+  induction m with
+  | nil => rfl
+  | cons hd tl ih =>
+    obtain ⟨k', v⟩ := hd
+    simp only [eraseKey]; split
+    · next hk => subst hk; simp only [find, h, if_false]; exact ih
+    · simp only [find]; split
+      · rfl
+      · exact ih
+
+theorem length_eraseKey_lt {α : Type} (k : String) (m : AL α) (h : (find k m).isSome = true) :
+    (eraseKey k m).length < m.length := by
+  induction m with
+  | nil => simp [find] at h
+  | cons hd tl ih =>
+    obtain ⟨k', v⟩ := hd
+    simp only [eraseKey]; split
+    · have : (eraseKey k tl).length ≤ tl.length := by
+        clear ih h
+        induction tl with
+        | nil => simp [eraseKey]
+        | cons hd2 tl2 ih2 =>
+          obtain ⟨k2, v2⟩ := hd2
+          simp only [eraseKey]; split
+          · simp only [List.length_cons]; omega
+          · simp only [List.length_cons]; omega
+      simp only [List.length_cons]; omega
+    · next hne =>
+      simp only [find, hne, if_false] at h
+      simp only [List.length_cons]
+      have := ih h; omega
+
+/-- an evaluation that succeeds without `x` being available succeeds in the full map -/
+theorem val_of_erase (mrg : β → β → β) (m : AL (XSvc β)) (x : String) : ∀ (k : Nat) (y : String) (r : β),
+    val mrg k (eraseKey x m) y = some r → val mrg k m y = some r := by
+  intro k
+  induction k with
+  | zero => intro y r h; simp [val] at h
+  | succ k ih =>
+    intro y r h
+    rw [val] at h ⊢
+    by_cases hy : y = x
+    · subst hy; rw [find_eraseKey_self] at h; simp at h
+    · rw [find_eraseKey_ne hy] at h
+      cases hf : find y m with
+      | none => simp [hf] at h
+      | some e =>
+        obtain ⟨ext, b⟩ := e
+        cases ext with
+        | none => simpa [hf] using h
+        | some ref =>
+          simp only [hf, Option.map_eq_some_iff] at h ⊢
+          obtain ⟨base, hb, rfl⟩ := h
+          exact ⟨base, ih ref base hb, rfl⟩
+
+/-- if `x` itself cannot be evaluated within `k` steps, an evaluation of `y` within `k` steps never goes through `x` -/
+theorem val_erase_of_min (mrg : β → β → β) (m : AL (XSvc β)) (x : String) : ∀ (k : Nat) (y : String) (r : β),
+    (∀ j, j ≤ k → val mrg j m x = none) → val mrg k m y = some r → val mrg k (eraseKey x m) y = some r := by
+  intro k
+  induction k with
+  | zero => intro y r _ h; simp [val] at h
+  | succ k ih =>
+    intro y r hmin h
+    by_cases hy : y = x
+    · subst hy; rw [hmin (k + 1) (Nat.le_refl _)] at h; cases h
+    · rw [val] at h ⊢
+      rw [find_eraseKey_ne hy]
+      cases hf : find y m with
+      | none => simp [hf] at h
+      | some e =>
+        obtain ⟨ext, b⟩ := e
+        cases ext with
+        | none => simpa [hf] using h
+        | some ref =>
+          simp only [hf, Option.map_eq_some_iff] at h ⊢
+          obtain ⟨base, hb, rfl⟩ := h
+          exact ⟨base, ih ref base (fun j hj => hmin j (Nat.le_succ_of_le hj)) hb, rfl⟩
+
+/-- **fuel sufficiency**: whatever a service denotes, it denotes within `length` steps (a chain of references that
+does not come back to a service already on it cannot be longer than the number of services) -/
+theorem val_within_length (mrg : β → β → β) : ∀ (n : Nat) (m : AL (XSvc β)), m.length = n →
+    ∀ (k : Nat) (x : String) (r : β), val mrg k m x = some r → val mrg m.length m x = some r := by
+  intro n
+  induction n using Nat.strongRecOn with
+  | _ n ihn =>
+    intro m hlen k
+    induction k using Nat.strongRecOn with
+    | _ k ihk =>
+      intro x r h
+      -- is there a smaller fuel that already works?
+      by_cases hex : ∃ j, j < k ∧ (val mrg j m x).isSome = true
+      · obtain ⟨j, hj, hs⟩ := hex
+        obtain ⟨r', hr'⟩ := Option.isSome_iff_exists.mp hs
+        have : r' = r := val_det mrg m j k x r' r hr' h
+        subst this
+        exact ihk j hj x r' hr'
+      · -- k is minimal
+        have hmin : ∀ j, j < k → val mrg j m x = none := by
+          intro j hj
+          cases hv : val mrg j m x with
+          | none => rfl
+          | some r' => exact absurd ⟨j, hj, by rw [hv]; rfl⟩ hex
+        cases k with
+        | zero => simp [val] at h
+        | succ k =>
+          have hx : (find x m).isSome = true := val_some_find mrg (k + 1) m x r h
+          have hpos : 0 < m.length := by
+            cases m with
+            | nil => simp [find] at hx
+            | cons _ _ => simp
+          rw [val] at h
+          cases hf : find x m with
+          | none => simp [hf] at h
+          | some e =>
+            obtain ⟨ext, b⟩ := e
+            cases ext with
+            | none =>
+              simp only [hf, Option.some.injEq] at h
+              subst h
+              obtain ⟨l, hl⟩ : ∃ l, m.length = l + 1 := ⟨m.length - 1, by omega⟩
+              rw [hl, val, hf]
+            | some ref =>
+              simp only [hf, Option.map_eq_some_iff] at h
+              obtain ⟨base, hb, rfl⟩ := h
+              -- evaluate ref without x
+              have he : val mrg k (eraseKey x m) ref = some base :=
+                val_erase_of_min mrg m x k ref base (fun j hj => hmin j (Nat.lt_succ_of_le hj)) hb
+              have hlt : (eraseKey x m).length < n := by rw [← hlen]; exact length_eraseKey_lt x m hx
+              have h1 := ihn (eraseKey x m).length hlt (eraseKey x m) rfl k ref base he
+              have h2 := val_of_erase mrg m x _ ref base h1
+              -- pad the fuel up to length m - 1
+              have hle : (eraseKey x m).length + (m.length - 1 - (eraseKey x m).length) = m.length - 1 := by
+                have := length_eraseKey_lt x m hx; omega
+              have h3 := val_mono' mrg m _ (m.length - 1 - (eraseKey x m).length) ref base h2
+              rw [hle] at h3
+              obtain ⟨l, hl⟩ : ∃ l, m.length = l + 1 := ⟨m.length - 1, by omega⟩
+              rw [hl, val, hf]
+              have hl' : l = m.length - 1 := by omega
+              rw [hl'] 
+              simp only [h3, Option.map_some]
+
+theorem fuelEnough_length (mrg : β → β → β) (m0 : AL (XSvc β)) (j : Nat) : FuelEnough mrg (m0.length + j) m0 := by
+  intro x r k h
+  exact val_mono' mrg m0 m0.length j x r (val_within_length mrg m0.length m0 rfl k x r h)
+
+end CV.Det
